@@ -1832,6 +1832,35 @@ pub fn generate(seed: u64) -> C11Scenario {
             }
         }
     }
+    // a directory of the input reachable under a second name through a symbolic link (real
+    // file system, fault-free projects): its files are sources under both names
+    if matches!(backend, Backend::RealFs | Backend::RealLib)
+        && !project.input_is_file
+        && scn.bad_files.is_empty()
+        && scn.faults.is_empty()
+        && scn.unwritable.is_empty()
+        && scn.maybe_bad.is_empty()
+        && separate_output(&scn.opts)
+        && rk.chance(1, 4)
+    {
+        let input_dir = gen::normalize(&project.input);
+        let prefix = format!("{}/", input_dir);
+        let sub_dirs: BTreeSet<String> = project
+            .sources
+            .iter()
+            .filter_map(|s| s.path.strip_prefix(&prefix))
+            .filter_map(|rel| rel.split('/').next().filter(|_| rel.contains('/')).map(str::to_owned))
+            .collect();
+        let link = gen::join(&input_dir, "zz-alias");
+        if let Some(dir) = sub_dirs.iter().next() {
+            if !scn.entries.iter().any(|e| e.path == link || e.path.starts_with(&format!("{}/", link))) {
+                scn.entries.push(FsEntry {
+                    path: link,
+                    body: Body::Symlink(dir.clone()),
+                });
+            }
+        }
+    }
     // both default configuration files sit in the working directory although the run has
     // its own configuration (an object, `--config <path>`, `darklua minify`): they must not
     // even be looked at
